@@ -392,6 +392,9 @@ class BVReduceBW:
                 and is_bv_sort(get_sort(node[1])))
 
     def global_mutations(self, node, input_):
+        if is_var(Node('_{}'.format(node[1]))):
+            # the name of the new variable is already taken
+            return
         bw = get_bv_width(node[1])
         bws = sorted(set([bw - 1, bw // 2, 2, 1]))
         for b in bws:
